@@ -4,8 +4,10 @@ A case is a PROGRAM (SSA list of public Field operations over 1-3 input fields o
 mesh, executed step by step on the real code; the model evaluates ONE inlined expression per
 step), a SESSION (`hist`: statements over numbered variables mixing builds with IN-PLACE changes of
 existing fields — `x.valid = spec`, `x.valid[idx] = v`, `x.rotate90(inplace=True)`, `y = +x`; the
-model runs the same statements over its store of buffers) or a SETTER case (one assignment
-`field.valid = spec` / `Field(..., valid=spec)`).
+model runs the same statements over its store of buffers), a SETTER case (one assignment
+`field.valid = spec` / `Field(..., valid=spec)`) or a GEO case (tolerance regime: one coordinate-located cell map -
+resample / sel plane / sel range / field[region] - of a field whose values NUMBER its cells, on a mesh with arbitrary
+binary64 corners; the result itself tells which cell every value came from, its validity must be that cell's).
 
 Oracle (real code alone, after EVERY step): the result's `valid` is a bool array of shape
 `mesh.n`; its values are what the property promises for that operation (operand's mask / AND of
@@ -40,13 +42,28 @@ RULE = ("programs: every public Field operation that returns a field (unary/deri
         "model's store, and on the code alone: no other field's mask or values change; setter: None, numbers, bool/int/float "
         "arrays and nested lists of shape n, (*n,1) and broadcastable shapes, callables, 'norm' with lengths straddling 1e-8, "
         "Boolean scalar FIELDS on the same / a larger / a non-containing region, malformed arguments, by assignment and "
-        "through the constructor. non-trivial = some input mask mixed")
+        "through the constructor; GEO stream (tolerance regime): resample / sel(point) / sel(range) / field[region] of a field "
+        "whose values number its cells on meshes with arbitrary binary64 corners (cell sizes 1e-13..1e8, regions at, across and "
+        "far from the origin up to 2^30 cells away, corners in any order, 1-3 dims, up to 4000 cells along one axis and up to 8192 "
+        "after resampling, dtypes float64/float32/complex128/int64, 1-3 components, stripes/checkerboard/blocks/random/single-cell "
+        "masks): resampling to every relation of cell counts (even ratios and other counts that put new cell centres exactly ON "
+        "the border of two old cells so that rounding of the coordinates decides the source cell, odd ratios, up-sampling, "
+        "n+-1,2, unrelated counts), selection points / box corners at 1e-1..1e-17 of a cell on either side of every cell face and "
+        "of the region boundary and at 0-3 ulps around the face as floating-point arithmetic gives it (13-25 positions per "
+        "mesh); oracle on the code alone: every result cell carries the validity of the operand cell whose VALUE it holds, a "
+        "selection the mesh accepts does not fail for the field; model: nearest-cell map compared off the exact ties, and the "
+        "lookup model given the observed tie decisions / observed block compared on all cells, observed source cells admissible "
+        "by exact rational geometry. non-trivial = some input mask mixed")
 TRUSTED = ["harness/c08.py, harness/fieldio.py + driver JSON glue (compound operations grad/div/curl/laplace/sum/<< number/"
            "reflected/ufunc are built by the Lean model, not by the harness)",
            "np.pad / np.rot90 / fancy slicing / xarray nearest lookup / h5py / VTK modelled by contract (index maps), validated by the run",
            "np.shares_memory as the observation of buffer identity"]
-ASSUMPTIONS = ["exact-regime geometry (dyadic corners and cells): plane/range/region arguments and resampling targets decide "
-               "their cell without rounding; resampling targets are tie-free unless the target cell size is dyadic",
+ASSUMPTIONS = ["programs / sessions / setter: exact-regime geometry (dyadic corners and cells): plane/range/region arguments and "
+               "resampling targets decide their cell without rounding; resampling targets are tie-free unless the target cell size "
+               "is dyadic.  GEO stream: no such restriction; coordinates resolve at least 2^-22 of a cell (|corner| / cell <= 2^30), "
+               "so only EXACT ties (new centre on an old border) are decided by rounding: there either neighbour is admitted for "
+               "the DATA, the validity must follow the data's choice; selection points closer than 5e-3 of a cell to a face may "
+               "be attributed to either side (no property pins it), again validity must follow the data",
                "'norm': cells whose squared length is within 2^-30 (relative) of 1e-16 are not compared"]
 UNPROVED = ["ownership (a result's validity is its own) is a REQUIREMENT stated on the store model (every statement that "
             "builds a field or assigns validity binds a new buffer; theorems session_invariant / session_ownership / "
@@ -63,6 +80,11 @@ UNPROVED = ["ownership (a result's validity is its own) is a REQUIREMENT stated 
             "object level: theorems speak about the validity array of each Field (and pairs (value, validity) for the mapping "
             "operations); that the Fld-level operations of C03/C05/C07 hand exactly these arrays to the constructor is checked "
             "by the correspondence runs of those properties and of this one, not by a Lean theorem linking the models",
+            "GEO stream: which source cell the DATA of a resampled / selected field comes from is read off the result (values "
+            "number the cells) and only checked for admissibility; the model comparison is skipped for results with more than "
+            "~40000 x (cells per axis) lookups (Lean evaluates nearest-cell search linearly): those large cases (thousands of "
+            "cells along an axis) are judged by the code-alone oracle only; a selection the library refuses (point outside the "
+            "region by rounding) has no result and is only counted (tag geo-raised)",
             "in-place rotate90 turns the Mesh OBJECT, which results share with their operand (g = -f; g.rotate90(inplace=True) "
             "leaves f.valid.shape != f.mesh.n): sessions turn only fields with a mesh of their own (C12/C13 matter, reported)"]
 BUDGET = {"quick": 150, "thorough": 1500}
@@ -956,6 +978,11 @@ def cases(rng, tier):
         steps = gen_program(rng, mesh, leaves, rng.choice([2, 3, 3, 4, 5]))
         if steps:
             yield dict(kind="prog", mesh=mesh, leaves=leaves, steps=steps, sub=rng.getrandbits(32), why="random")
+    # geometry stream: coordinate-located cell maps on arbitrary binary64 meshes (ties of resample, points next to faces)
+    for _ in range(1500 if quick else 25000):
+        yield gen_geo(rng, "small")
+    for _ in range(250 if quick else 4000):
+        yield gen_geo(rng, "long")
     for rep in range(10 if quick else 150):
         for spec in SETTER_SPECS + (["field_real"] if FIELD_REAL_SPEC else []):
             mesh = small_mesh(rng)
@@ -1481,11 +1508,452 @@ def run_setter(case):
     return obs
 
 
+# ============================================================================ geometry stream (kind "geo")
+# The cell-mapping operations that LOCATE cells from coordinates (resample: nearest old cell of every new cell centre;
+# sel / field[region]: the cell of a point) on meshes of the tolerance regime: arbitrary binary64 corners (cell sizes
+# 1e-12 .. 1e6, regions at / across / far from the origin), up to thousands of cells along one axis, all value dtypes,
+# new cell centres exactly ON the border of two old cells (even down-sampling ratios: floating-point rounding of the
+# coordinates decides the source cell, differently from cell to cell) and selection points at 1e-1 .. 1e-15 of a cell on
+# either side of a cell face / the region boundary.  The field's values NAME its cells, so the result itself tells which
+# cell every value was taken from; the property demands that its validity is the validity of exactly that cell.
+GEO_OPS = ["resample", "resample", "resample", "sel_plane", "sel_range", "crop"]
+GEO_DTYPES = ["float64", "float64", "float64", "complex128", "float32", "int64"]
+GEO_PATTERNS = ["stripes", "stripes", "checker", "random", "random", "one_invalid", "one_valid", "blocks"]
+GEO_MODEL_COST = 40000  # model cost of a resample request ~ cells of the result x cells per axis of the source
+
+
+def _geo_near(rng, n, sharp=False):
+    """a position near cell face k (0..n, the region boundary included): (k, exponent e, side s) = face k + s*10^-e cells"""
+    k = rng.choice([0, n, rng.randint(0, n), rng.randint(0, n)])
+    s = rng.choice([-1, 1])
+    if k in (0, n) and rng.random() < 0.8:
+        s = 1 if k == 0 else -1  # mostly just inside the region boundary (just outside: the library refuses the point)
+    if rng.random() < (0.6 if sharp else 0.3):
+        # the binary64 numbers around the face itself: the face as floating-point arithmetic gives it, 0-3 ulps away
+        return dict(k=k, ulp=s * rng.choice([0, 1, 1, 2, 3]), via=rng.choice(["exact", "mul"]))
+    return dict(k=k, e=rng.randint(12, 17) if sharp else rng.choice([rng.randint(1, 15), rng.randint(12, 17)]), s=s)
+
+
+def _geo_resample_target(rng, n, long_axis):
+    """cells of the resampled axis: every relation to the old count - even ratios (new centres ON old cell borders), odd
+    ratios (centre on centre), up-sampling, neighbouring counts (centres drift across the borders), unrelated counts"""
+    cap = 8192 if long_axis else 24
+    opts = ["any", "same", "pm1", "up"]
+    divs_even = [m for m in range(1, n) if n % m == 0 and (n // m) % 2 == 0]
+    divs_odd = [m for m in range(1, n) if n % m == 0 and (n // m) % 2 == 1]
+    # n / gcd(n, m) even  <=>  some centre of the m-cell axis lies exactly on a border of the n-cell axis
+    tie_other = [m for m in ([rng.randint(1, cap) for _ in range(40)] if long_axis else range(1, cap + 1))
+                 if (n // np.gcd(n, m)) % 2 == 0 and n % m != 0]
+    if divs_even:
+        opts += ["even"] * 4
+    if divs_odd:
+        opts += ["odd"]
+    if tie_other:
+        opts += ["tie_other"] * 2
+    k = rng.choice(opts)
+    if k == "any":
+        m = rng.randint(1, min(cap, 3 * n + 2))
+    elif k == "same":
+        m = n
+    elif k == "pm1":
+        m = max(1, n + rng.choice([-2, -1, 1, 2]))
+    elif k == "up":
+        m = n * rng.randint(2, 4)
+    elif k == "even":
+        m = rng.choice(divs_even)
+    elif k == "odd":
+        m = rng.choice(divs_odd)
+    else:
+        m = rng.choice(tie_other)
+    return int(min(max(m, 1), cap))
+
+
+def gen_geo(rng, size_class):
+    nd = rng.choice([1, 1, 2, 2, 3])
+    la = None
+    if size_class == "long":
+        la = rng.randrange(nd)
+        n = [rng.randint(1, 3) for _ in range(nd)]
+        n[la] = rng.choice([rng.randint(300, 1200), rng.randint(1200, 4000), 2 ** rng.randint(9, 12), 1000, 3000, 6 * rng.randint(50, 600)])
+    else:
+        n = [rng.choice([rng.randint(1, 12), rng.randint(1, 12), 2 * rng.randint(1, 8), 6, 10]) for _ in range(nd)]
+        while int(np.prod(n)) > 500:
+            n[n.index(max(n))] = max(1, max(n) // 2)
+    # ---- geometry: arbitrary floats
+    e10 = rng.randint(-12, 6)
+    p1, p2 = [], []
+    for a in range(nd):
+        style = rng.choice(["decimal", "decimal", "uniform", "dyadic"])
+        if style == "decimal":
+            m = rng.choice([1.0, 2.0, 2.5, 3.0, 5.0, 7.0, 0.3, 0.6, 1.25, 4.0 / 3.0, 2.0 / 3.0])
+        elif style == "uniform":
+            m = rng.uniform(1.0, 10.0)
+        else:
+            m = 2.0 ** rng.randint(-3, 3)
+        cell = m * 10.0 ** (e10 + rng.choice([0, 0, 0, 1, 2]))
+        if style == "dyadic" and rng.random() < 0.5:
+            cell = m  # cells and corners on the binary grid
+        edge = cell * n[a]
+        off = rng.choice(["zero", "zero", "across", "centred", "aligned", "aligned", "far", "far"])
+        if off == "zero":
+            lo = 0.0
+        elif off == "across":
+            lo = -edge * rng.random()
+        elif off == "centred":
+            lo = -edge / 2
+        elif off == "aligned":  # a multiple of the cell, like a region cut out of a larger grid
+            lo = cell * rng.randint(-1000, 1000)
+        else:  # far from the origin; coordinates still resolve 2^-22 of a cell
+            kmax = max(0, int(np.floor(np.log10(2.0 ** 30 / n[a]))))
+            lo = rng.choice([-1, 1]) * edge * 10.0 ** rng.randint(0, kmax) * rng.choice([1.0, rng.uniform(1.0, 3.0)])
+        hi = lo + edge
+        if rng.random() < 0.25:
+            lo, hi = hi, lo  # corners in any order
+        p1.append(float(lo))
+        p2.append(float(hi))
+    op = rng.choice(GEO_OPS)
+    if op == "sel_plane" and nd == 1:
+        op = "resample"
+    if op == "resample":
+        args = dict(n=[_geo_resample_target(rng, n[a], a == la) for a in range(nd)])
+        if la is None:
+            while int(np.prod(args["n"])) > 1500:
+                b = args["n"].index(max(args["n"]))
+                args["n"][b] = max(1, args["n"][b] // 2)
+    elif op == "sel_plane":
+        ax = rng.randrange(nd)
+        args = dict(ax=ax, at=_geo_near(rng, n[ax]))
+    elif op == "sel_range":
+        ax = rng.randrange(nd)
+        args = dict(ax=ax, a=_geo_near(rng, n[ax]), b=_geo_near(rng, n[ax]))
+    else:
+        args = dict(lo=[_geo_near(rng, m) for m in n], hi=[_geo_near(rng, m) for m in n])
+    if op != "resample":
+        # the same kind of selection at 12-24 further positions of this mesh, mostly within a few ulps / 1e-12 cells of a face
+        more = []
+        for _ in range(rng.randint(12, 24)):
+            if op == "sel_plane":
+                more.append(dict(ax=args["ax"], at=_geo_near(rng, n[args["ax"]], sharp=True)))
+            elif op == "sel_range":
+                more.append(dict(ax=args["ax"], a=_geo_near(rng, n[args["ax"]], sharp=True), b=_geo_near(rng, n[args["ax"]], sharp=True)))
+            else:
+                more.append(dict(lo=[_geo_near(rng, m, sharp=True) for m in n], hi=[_geo_near(rng, m, sharp=True) for m in n]))
+        args["more"] = more
+    # patterns that tell neighbouring cells apart along the axis that matters are drawn more often
+    pattern = rng.choice(GEO_PATTERNS + (["stripes_ax"] * 6 + ["checker"] * 3 if op in ("sel_plane", "sel_range") else ["checker"] * 5))
+    return dict(kind="geo", p1=p1, p2=p2, n=n, nvdim=rng.choice([1, 1, 2, 3]), dtype=rng.choice(GEO_DTYPES),
+                pattern=pattern, op=op, args=args, size=size_class, sub=rng.getrandbits(32))
+
+
+def geo_mask(pattern, n, rng, ax=None):
+    idx = np.indices(n)
+    if pattern == "stripes_ax":
+        return (idx[ax if ax is not None else 0] + rng.randrange(2)) % 2 == 0
+    if pattern == "stripes":
+        ax = rng.randrange(len(n))
+        return (idx[ax] + rng.randrange(2)) % 2 == 0
+    if pattern == "checker":
+        return (idx.sum(axis=0) + rng.randrange(2)) % 2 == 0
+    if pattern == "blocks":
+        ax = rng.randrange(len(n))
+        w = rng.randint(1, 3)
+        return (idx[ax] // w) % 2 == 0
+    if pattern in ("one_invalid", "one_valid"):
+        m = np.full(n, pattern == "one_invalid")
+        m[tuple(rng.randrange(k) for k in n)] = pattern != "one_invalid"
+        return m
+    return fieldio.gen_mask(rng, n, rng.choice([0.8, 0.5, 0.3]))
+
+
+def _geo_point(lo, cell, pos):
+    """the binary64 number nearest to face k + s*10^-e cells, or a neighbour (in ulps) of face k as computed in floats"""
+    if "ulp" in pos:
+        if pos["via"] == "exact":
+            x = float(lo + pos["k"] * cell)
+        else:
+            x = float(lo) + pos["k"] * float(cell)
+        for _ in range(abs(pos["ulp"])):
+            x = float(np.nextafter(x, np.inf if pos["ulp"] > 0 else -np.inf))
+        return x
+    return float(lo + (pos["k"] + Fraction(pos["s"], 10 ** pos["e"])) * cell)
+
+
+def _geo_dist_tag(pos):
+    return "geo-face-distance:" + (f"{abs(pos['ulp'])}ulp" if "ulp" in pos else f"1e-{pos['e']:02d}")
+
+
+def geo_call(f, case):
+    """the public call of the case on a field (or on a mesh); returns (result, exact positions of the arguments in cell
+    units or None)"""
+    op, a = case["op"], case["args"]
+    mesh = f if isinstance(f, df.Mesh) else f.mesh
+    d = mesh.region.dims
+    lo = [Fraction(float(x)) for x in mesh.region.pmin]
+    hi = [Fraction(float(x)) for x in mesh.region.pmax]
+    n = [int(k) for k in mesh.n]
+    cell = [(h - l) / k for l, h, k in zip(lo, hi, n)]
+    if op == "resample":
+        return f.resample(tuple(a["n"])), None
+    if op == "sel_plane":
+        x = _geo_point(lo[a["ax"]], cell[a["ax"]], a["at"])
+        return f.sel(**{d[a["ax"]]: x}), [(Fraction(x) - lo[a["ax"]]) / cell[a["ax"]]]
+    if op == "sel_range":
+        xs = [_geo_point(lo[a["ax"]], cell[a["ax"]], a[key]) for key in ("a", "b")]
+        return f.sel(**{d[a["ax"]]: tuple(xs)}), [(Fraction(x) - lo[a["ax"]]) / cell[a["ax"]] for x in sorted(xs)]
+    q1 = [_geo_point(l, c, p) for l, c, p in zip(lo, cell, a["lo"])]
+    q2 = [_geo_point(l, c, p) for l, c, p in zip(lo, cell, a["hi"])]
+    pos = [[(Fraction(min(x, y)) - l) / c for x, y, l, c in zip(q1, q2, lo, cell)],
+           [(Fraction(max(x, y)) - l) / c for x, y, l, c in zip(q1, q2, lo, cell)]]
+    return f[df.Region(p1=q1, p2=q2, dims=d, units=mesh.region.units)], pos
+
+
+def _cell_candidates(x, n, upper=False):
+    """cells (0..n-1) a point at exact position x (cell units) may be attributed to: the cell that contains it; next to a
+    face (closer than 5e-3 of a cell - no property pins the treatment of such points) the cell on either side.  `upper`:
+    the point is the UPPER end of a box (a box ending ON a face does not reach into the next cell)"""
+    k = x.numerator // x.denominator
+    c = {k - 1 if (upper and x == k) else k}
+    fr = x - k
+    if fr < Fraction(5, 1000):
+        c |= {k - 1, k}
+    if 1 - fr < Fraction(5, 1000):
+        c |= {k, k + 1}
+    return {min(max(i, 0), n - 1) for i in c}
+
+
+def geo_probe(f, ids, mask, before, case, snaps, obs, extra=False):
+    """one public call on the cell-numbered field `f`: structural and ownership checks, then the property - every result
+    cell carries the validity of the operand cell whose value it holds.  Returns (result, exact argument positions,
+    source cell of every result cell) or None (no result / not a field / values not readable)"""
+    op, a = case["op"], case["args"]
+    fail = obs["oracle"].append
+    n = tuple(int(k) for k in f.mesh.n)
+    size = int(np.prod(n))
+    tag = "geo:" + op
+    if extra:
+        obs["tags"] += ["geo-extra-probe"] + [_geo_dist_tag(p) for p in ([a["at"]] if op == "sel_plane" else [a["a"], a["b"]] if op == "sel_range"
+                                                                      else a["lo"] + a["hi"])]
+    try:
+        res, pos = geo_call(f, case)
+    except Exception as e:
+        if op == "resample":
+            fail(f"[{tag}] raised {type(e).__name__}: {str(e)[:160]} (region {case['p1']}..{case['p2']}, n {list(n)} -> {a['n']})")
+        # a point / box the library does not accept (outside the region by rounding, ...): no result, nothing for C08 -
+        # provided the MESH refuses it as well; a box the mesh accepts must not fail for the field's data or validity
+        else:
+            try:
+                geo_call(f.mesh, case)
+                mesh_ok = True
+            except Exception:
+                mesh_ok = False
+            if mesh_ok:
+                fail(f"[{tag}] raised {type(e).__name__}: {str(e)[:160]} although the mesh accepts the same selection "
+                     f"(region {case['p1']}..{case['p2']}, n {list(n)}, {a})")
+        obs["tags"].append(f"geo-raised:{op}")
+        return None
+    if not isinstance(res, df.Field):
+        # sel of the only axis of a 1-d mesh etc. returns plain values
+        obs["tags"].append(f"geo-nofield:{op}")
+        return None
+    check_result(tag, res, [f], snaps, fail)
+    if not np.array_equal(before, f.array):
+        fail(f"[{tag}] changed the stored values of its operand")
+    rn = tuple(int(k) for k in res.mesh.n)
+    if res.valid.shape != rn or res.array.shape[:-1] != rn:
+        return None
+    # ---- which cell was every value taken from?  (component 0 holds the cell numbers)
+    got = np.asarray(res.array)[..., 0].real
+    src = np.rint(got).astype(np.int64) - 1
+    if src.size == 0 or src.min() < 0 or src.max() >= size or not np.array_equal(got, ids.reshape(-1)[src.reshape(-1)].reshape(rn)):
+        obs["tags"].append("geo-unreadable-values")  # the VALUES are not cell values of the operand: not C08's matter
+        return None
+    exp = mask.reshape(-1)[src.reshape(-1)].reshape(rn)
+    if not np.array_equal(res.valid, exp):
+        j = tuple(int(k) for k in np.argwhere(res.valid != exp)[0])
+        i = tuple(int(k) for k in np.unravel_index(int(src[j]), n))
+        fail(f"[{tag}] validity is not moved like the data: result cell {list(j)} holds the value of operand cell {list(i)} "
+             f"(valid={bool(mask[i])}) but is marked valid={bool(res.valid[j])}; {int((res.valid != exp).sum())} of {exp.size} "
+             f"cells differ; region {case['p1']}..{case['p2']}, n={list(n)}, dtype={case['dtype']}, {op} {a}")
+    return res, pos, src
+
+
+def run_geo(case):
+    rng = random.Random(case["sub"])
+    op, a = case["op"], case["args"]
+    nd = len(case["n"])
+    scale = max(abs(x) for x in case["p1"] + case["p2"])
+    obs = {"oracle": [], "ok": False,
+           "tags": ["kind:geo", "geo:" + op, f"geo-ndim:{nd}", "geo-dtype:" + case["dtype"], "geo-size:" + case["size"],
+                    "geo-pattern:" + case["pattern"], "geo-cellscale:1e%+03d" % int(np.floor(np.log10(abs(case["p2"][0] - case["p1"][0]) / case["n"][0]))),
+                    "geo-offset:" + ("origin" if min(min(abs(x), abs(y)) for x, y in zip(case["p1"], case["p2"])) == 0 else
+                                     "across" if any(x * y < 0 for x, y in zip(case["p1"], case["p2"])) else
+                                     "far" if any(min(abs(x), abs(y)) > 8 * abs(x - y) for x, y in zip(case["p1"], case["p2"])) else "near")]}
+    fail = obs["oracle"].append
+    mesh = df.Mesh(p1=tuple(case["p1"]), p2=tuple(case["p2"]), n=tuple(case["n"]))
+    n = tuple(int(k) for k in mesh.n)
+    size = int(np.prod(n))
+    ids = (np.arange(size) + 1).reshape(n)
+    nv = case["nvdim"]
+    dt = np.dtype(case["dtype"])
+    value = np.stack([ids, -ids, 2 * ids][:nv], axis=-1).astype(dt)
+    if dt.kind == "c":
+        value = value + 1j * np.stack([ids % 7] * nv, axis=-1)
+    mask = geo_mask(case["pattern"], n, rng, a.get("ax"))
+    f = df.Field(mesh, nvdim=nv, value=value, dtype=dt, valid=mask)
+    obs["leafmask"] = dict(shape=list(n), data=mask.reshape(-1).tolist())
+    obs["nontrivial"] = bool(0 < int(mask.sum()) < mask.size)
+    snaps = [mask_bytes(f)]
+    before = f.array.copy()
+    tag = "geo:" + op
+    # further positions of the same kind on the same field (selections only): checked on the code alone
+    for extra in a.get("more", []):
+        geo_probe(f, ids, mask, before, dict(case, args=extra), snaps, obs, extra=True)
+    got3 = geo_probe(f, ids, mask, before, case, snaps, obs)
+    if got3 is None:
+        obs["nontrivial"] = False
+        return obs
+    res, pos, src = got3
+    rn = tuple(int(k) for k in res.mesh.n)
+    write_probe(tag, res, [f], snaps, rng, fail)
+    obs.update(ok=True, shape=list(rn), mask=res.valid.reshape(-1).astype(bool).tolist())
+    # ---- the observed cell map, per axis, for the model (exact geometry decides what is admissible)
+    sidx = np.unravel_index(src, n)
+    geo_dis = []
+    if op == "resample":
+        tables, advice, band_axes, nties = [], [], [], 0
+        for b in range(nd):
+            line = np.moveaxis(sidx[b], b, 0).reshape(rn[b], -1)
+            if not (line == line[:, :1]).all():
+                geo_dis.append(f"resample: the source cell along axis {b} depends on the other axes (model: nearest cell axis by axis)")
+            t = [int(k) for k in line[:, 0]]
+            adv, tie = [], []
+            for j, i in enumerate(t):
+                num, den = (2 * j + 1) * n[b], 2 * rn[b]
+                q = num // den
+                is_tie = num % den == 0 and 1 <= q <= n[b] - 1
+                ok = (i in (q - 1, q)) if is_tie else (i == min(q, n[b] - 1))
+                if not ok:
+                    geo_dis.append(f"resample {n[b]} -> {rn[b]} cells (axis {b}): new cell {j} took its value from old cell {i}; "
+                                   f"its centre lies at {Fraction(num, den)} old cells")
+                adv.append(-1 if (is_tie and i == q - 1) else 0)
+                tie.append(bool(is_tie))
+            nties += sum(tie)
+            tables.append(t)
+            advice.append(adv)
+            band_axes.append(tie)
+        obs["tags"].append("geo-resample:" + ("ties" if nties else "tie-free"))
+        if nties:
+            lefts = sum(1 for adv in advice for s in adv if s)
+            obs["tags"].append("geo-ties:" + ("all-up" if lefts == 0 else "all-down" if lefts == nties else "mixed"))
+        obs["tags"].append("geo-resample-ratio:" + ("down" if int(np.prod(rn)) < size else "up" if int(np.prod(rn)) > size else "same"))
+        cost = int(np.prod(rn)) * sum(n)
+        if cost <= GEO_MODEL_COST:
+            band = np.zeros(rn, bool)
+            for b in range(nd):
+                shp = [1] * nd
+                shp[b] = rn[b]
+                band |= np.array(band_axes[b]).reshape(shp)
+            obs["band"] = band.reshape(-1).tolist()
+            obs["advice"] = advice
+        else:
+            obs["tags"].append("geo-model:skipped-large")
+    else:
+        # selection: the block of cells that was extracted
+        first = [int(s.reshape(-1)[0]) for s in sidx]
+        if op == "sel_plane":
+            ax = a["ax"]
+            k = first[ax]
+            if not (sidx[ax] == k).all():
+                geo_dis.append("sel: values of more than one plane")
+            if k not in _cell_candidates(pos[0], n[ax]):
+                geo_dis.append(f"sel plane: point at {float(pos[0])!r} cells along axis {ax} selected plane {k}")
+            obs["node"] = dict(k="take", ax=ax, i=k)
+            obs["tags"].append(_geo_dist_tag(a["at"]))
+        else:
+            lo = first
+            hi = [l + m for l, m in zip(lo, rn)]
+            blk = ids[tuple(slice(l, h) for l, h in zip(lo, hi))]
+            if blk.shape != rn or not np.array_equal(blk - 1, src):
+                geo_dis.append(f"{op}: the result is not a block of neighbouring cells of the operand")
+            if op == "sel_range":
+                ax = a["ax"]
+                if lo[ax] not in _cell_candidates(pos[0], n[ax]) or hi[ax] - 1 not in _cell_candidates(pos[1], n[ax]):
+                    geo_dis.append(f"sel range: points at {float(pos[0])!r}, {float(pos[1])!r} cells along axis {ax} selected cells {lo[ax]}..{hi[ax] - 1}")
+                if any(l != 0 or h != m for b, (l, h, m) in enumerate(zip(lo, hi, n)) if b != ax):
+                    geo_dis.append("sel range: cells dropped along another axis")
+                obs["node"] = dict(k="slice", ax=ax, lo=lo[ax], hi=hi[ax])
+                obs["tags"] += [_geo_dist_tag(a[key]) for key in ("a", "b")]
+            else:
+                for b in range(nd):
+                    if lo[b] not in _cell_candidates(pos[0][b], n[b]) or hi[b] - 1 not in _cell_candidates(pos[1][b], n[b], upper=True):
+                        geo_dis.append(f"field[region]: box from {float(pos[0][b])!r} to {float(pos[1][b])!r} cells along axis {b} "
+                                       f"extracted cells {lo[b]}..{hi[b] - 1}")
+                obs["node"] = dict(k="crop", lo=lo, hi=hi)
+                obs["tags"] += [_geo_dist_tag(p) for p in a["lo"] + a["hi"]]
+        if size > GEO_MODEL_COST:
+            obs.pop("node", None)
+            obs["tags"].append("geo-model:skipped-large")
+    obs["geo_dis"] = geo_dis
+    return obs
+
+
+def geo_requests(case, obs):
+    if not obs.get("ok"):
+        return []
+    leaf = obs["leafmask"]
+    if case["op"] != "resample":
+        if "node" not in obs:
+            return []
+        return [dict(op="eval", leaves=[leaf], prog=dict(t="map", op=obs["node"], p=dict(t="leaf", k=0)))]
+    if "advice" not in obs:
+        return []
+    n, n2 = leaf["shape"], obs["shape"]
+    # (1) the geometry-free reading: nearest old cell, equally near -> the upper one
+    reqs = [dict(op="eval", leaves=[leaf], prog=dict(t="map", op=dict(k="resample", n=n2), p=dict(t="leaf", k=0)))]
+    # (2) the constructor's lookup of a Boolean field at the new cell centres, centres in units of 1/(8 n n2) of the edge;
+    #     a centre ON a border that the code attributed to the LOWER cell is moved a quarter unit down (any rounding of the
+    #     coordinates does that or the opposite, nothing else)
+    cs = [[Q(Fraction((2 * i + 1) * 4 * m2, 8 * m * m2)) for i in range(m)] for m, m2 in zip(n, n2)]
+    xs = [[Q(Fraction((2 * j + 1) * 4 * m + s, 8 * m * m2)) for j, s in zip(range(m2), adv)] for m, m2, adv in zip(n, n2, obs["advice"])]
+    spec = dict(kind="lookup", src=leaf, inside=True, cs=cs, xs=xs)
+    dummy = dict(shape=n2, data=[False] * int(np.prod(n2)))
+    reqs.append(dict(op="eval", leaves=[leaf, dummy], prog=dict(t="setv", spec=spec, p=dict(t="leaf", k=1))))
+    return reqs
+
+
+def geo_compare(case, obs, rs):
+    dis = list(obs.get("geo_dis", []))
+    if not obs.get("ok") or not rs:
+        return dis
+    what = f"geo {case['op']} {case['args']} on n={case['n']}"
+    for k, r in enumerate(rs):
+        if "ok" not in r:
+            dis.append(f"{what}: impl ok vs model {r}")
+            continue
+        m = r["ok"]
+        if m["shape"] != obs["shape"]:
+            dis.append(f"{what}: shape impl {obs['shape']} vs model {m['shape']}")
+            continue
+        # request 0 of a resampling: cells whose centre lies exactly on a border of two old cells are decided by rounding
+        band = obs["band"] if (case["op"] == "resample" and k == 0) else [False] * len(m["data"])
+        bad = [i for i, (x, y, s) in enumerate(zip(obs["mask"], m["data"], band)) if x != y and not s]
+        if bad:
+            dis.append(f"{what}: validity impl vs model ({'nearest-cell map' if k == 0 else 'lookup with the observed border decisions'}) "
+                       f"differ at {len(bad)} cells, first flat cell {bad[0]} (impl {obs['mask'][bad[0]]})")
+        if r["spec"] != m["data"] or r["shapeOf"] != m["shape"]:
+            dis.append(f"{what}: model evaluator and index-level reading disagree")
+        if r["alias"] is not None or r["addr"] is None or r["addr"] < r["nleaves"]:
+            dis.append(f"{what}: store model does not give the result a buffer of its own (addr {r['addr']}, alias {r['alias']})")
+    return dis
+
+
 def run_impl(case):
     if case["kind"] == "prog":
         return run_prog(case)
     if case["kind"] == "hist":
         return run_hist(case)
+    if case["kind"] == "geo":
+        return run_geo(case)
     return run_setter(case)
 
 
@@ -1575,6 +2043,8 @@ def compare_hist(case, obs, r):
 def model_requests(case, obs):
     if case["kind"] == "hist":
         return [hist_request(case, obs)]
+    if case["kind"] == "geo":
+        return geo_requests(case, obs)
     if case["kind"] == "setter":
         m = obs["mspec"]
         if m["kind"] == "lookup":
@@ -1603,6 +2073,8 @@ def compare(case, obs, rs):
     dis = []
     if case["kind"] == "hist":
         return compare_hist(case, obs, rs[0])
+    if case["kind"] == "geo":
+        return geo_compare(case, obs, rs)
     if case["kind"] == "setter":
         r = rs[0]
         if ("ok" in r) != bool(obs["ok"]):
@@ -1685,6 +2157,9 @@ def search(case, rng):
                 yield dict(case, steps=case["steps"][:k], sub=rng.getrandbits(32))
         for _ in range(40):
             yield dict(case, sub=rng.getrandbits(32))
+    elif case["kind"] == "geo":
+        for _ in range(40):
+            yield dict(case, sub=rng.getrandbits(32), pattern=rng.choice(GEO_PATTERNS + ["stripes_ax"]))
     else:
         for _ in range(60):
             yield dict(case, sub=rng.getrandbits(32), ctor=rng.random() < 0.5)
